@@ -32,7 +32,7 @@ def run(P: Program, rep: Report):
     rep.extra["char_classes"] = ex.classes
     if ex.unsupported:
         raise AnalysisError(f"C12.R1: analyser cannot follow split_multiple_persons_names: {ex.unsupported[0]}")
-    if not ex.mismatches and (len(ex.visited) < 15 or ex.completed < 5):
+    if not ex.mismatches and (len(ex.visited) < 15 or ex.completed < 3):
         raise AnalysisError(f"C12.R1: product exploration collapsed ({len(ex.visited)} states, {ex.completed} completed runs)")
     seen = set()
     for m in ex.mismatches:
